@@ -629,6 +629,16 @@ def run_c20(ctx: common.Ctx):
             hist.append(repr(e))
             after = (treewalk.text_of(f), treewalk.dump(f))
             changed = before != after
+            # whatever the edit was (in-place arithmetic, assignments, list operations): a deep copy of the edited
+            # document equals it, both ways
+            try:
+                cp = copy.deepcopy(f)
+                if not (cp == f) or not (f == cp):
+                    ctx.monitor_failure('C20:copy-unequal', f'after {hist[-1]} a deep copy of the document does not equal it (same text '
+                                        f'{treewalk.text_of(cp) == after[0]}, same structure {treewalk.dump(cp) == after[1]})',
+                                        dict(w, edit_seed=seed, history=hist))
+            except Exception:
+                pass          # a failing deepcopy is C11's business
             twin = gen_docs.parse_ok(before[0], ac) if k else g
             if k:
                 # the twin of an edited document is not available by parsing (attribution may differ): use a copy taken before
